@@ -188,6 +188,9 @@ class Interp:
                     return False
                 return z3.Function('is_none_val', Val, z3.BoolSort())(x.t)
             return isinstance(a, VNone) and isinstance(b, VNone)
+        for x, o in ((a, b), (b, a)):
+            if isinstance(x, VAny) and x.kindtag in ('regex', 'nonpattern') and isinstance(o, (VClass, VStr)):
+                return False            # a compiled pattern / some non-pattern object equals no class and no string
         if self.is_num(a) and self.is_num(b):
             return self.as_num(a) == self.as_num(b)
         if isinstance(a, VStr) and isinstance(b, VStr):
@@ -975,6 +978,18 @@ class Interp:
             special = self.listcomp_symbolic(node, g, it, fr)
             if special is not None:
                 return special
+        if isinstance(it, VObj) and self.ctx.heap[it.oid].kind == 'symlist':
+            return self.listcomp_with_contract(node, g, it, fr)
+        if isinstance(it, VStr):
+            # iterating a string: nothing when it is empty; otherwise the element expression is evaluated for the
+            # first character (an int for bytes) -- exact when that raises, outside the subset when it does not
+            if self.ctx.decide(z3.Length(it.t) == 0, 'empty-string-iterated'):
+                return self.ctx.alloc(HObj('list', 'list', {'items': []}, closed=True))
+            first = VInt(z3.StrToCode(z3.SubString(it.t, 0, 1))) if it.kind == 'b' else VStr(z3.SubString(it.t, 0, 1), it.kind)
+            sub = Frame(fr.fi, fr.module, fr.cls, {}, fr.con, closure=fr)
+            self.assign(g.target, first, sub)
+            self.eval(node.elt, sub)
+            raise Unsupported('list comprehension over a non-empty string')
         items = self.concrete_items(it)
         out = []
         sub = Frame(fr.fi, fr.module, fr.cls, {}, fr.con, closure=fr)
@@ -984,6 +999,32 @@ class Interp:
         return self.ctx.alloc(HObj('list', 'list', {'items': out}, closed=True))
 
     e_GeneratorExp = e_ListComp
+
+    def listcomp_with_contract(self, node, g, it, fr):
+        """[elt for x in <symbolic list>]: the loop `_compN = []; for x in it: _compN.append(elt)` cut by the loop
+        contract the function's contract gives for comprehension N (Contract.comps, numbered in source order)."""
+        con = fr.con
+        comps = [n for n in ast.walk(fr.fi.node) if isinstance(n, ast.ListComp)] if fr.fi is not None else []
+        comps.sort(key=lambda n: (n.lineno, n.col_offset))
+        idx = comps.index(node) if node in comps else None
+        spec = getattr(con, 'comps', {}).get(idx) if con is not None and idx is not None else None
+        if spec is None:
+            raise Unsupported('list comprehension #%s over a symbolic list in %s needs a loop contract' % (idx, fr.fi.qual if fr.fi else '?'))
+        acc = '_comp%d' % idx
+        fr.locals[acc] = self.ctx.alloc(HObj('list', 'list', {'items': []}, closed=True))
+        body = ast.Expr(ast.Call(func=ast.Attribute(value=ast.Name(acc, ast.Load()), attr='append', ctx=ast.Load()),
+                                 args=[node.elt], keywords=[]))
+        loop = ast.For(target=g.target, iter=g.iter, body=[body], orelse=[], type_comment=None)
+        ast.copy_location(loop, node)
+        ast.fix_missing_locations(loop)
+        saved = {n.id: fr.locals.get(n.id) for n in ast.walk(g.target) if isinstance(n, ast.Name)}
+        self.run_loop(loop, fr, spec, 100 + idx, kind='for', iterable=it)
+        for k, val in saved.items():            # the comprehension variable does not leak
+            if val is None:
+                fr.locals.pop(k, None)
+            else:
+                fr.locals[k] = val
+        return fr.locals.pop(acc)
 
     def listcomp_symbolic(self, node, g, it, fr):
         """[[X] * n for _ in range(m)]  ->  grid;   [''.join(row) for row in GRID]  ->  row texts"""
